@@ -229,7 +229,7 @@ func main() {
 
 	// per shard (lib/props/C19.json: 4 shards quick, 8 shards thorough)
 	counts := map[string]int{"plain": 10, "files": 40, "nosynfin": 40, "dup": 40, "swap": 40, "omit": 50, "frag": 40,
-		"mixed": 100, "edge": 40, "fragmess": 40, "sections": 40, "big": 2}
+		"mixed": 100, "edge": 60, "fragmess": 40, "sections": 40, "big": 2}
 	if cfg.Thorough() {
 		for k := range counts {
 			counts[k] *= 10
